@@ -259,6 +259,10 @@ func init() {
 			return (*stackage.Condition)(nil)
 		case 2:
 			return (*AStack)(nil)
+		case 4:
+			return (*EmbStack)(nil) // a user type that inherits the library's methods by embedding
+		case 5:
+			return (*EmbCond)(nil)
 		}
 		return (*ACond)(nil)
 	}
@@ -325,7 +329,7 @@ func c20Run(c *core.Ctx, idx int) {
 		default:
 			// a typed nil pointer to a Stack / Condition / alias: satisfies every interface its element type satisfies,
 			// yet nothing can be called through it - as the ONLY child of an envelope, or in slot 0 next to others
-			odd = &TNode{T: "leaf", Leaf: &LeafDesc{Tag: "nil-instance-ptr", N: r.Intn(4)}}
+			odd = &TNode{T: "leaf", Leaf: &LeafDesc{Tag: "nil-instance-ptr", N: r.Intn(6)}}
 			if r.Bool() {
 				odd = &TNode{T: "stack", Kind: []string{"AND", "OR", "LIST"}[r.Intn(3)], Kids: []*TNode{odd}}
 			}
